@@ -83,6 +83,10 @@ def run_core(ctx, mode):
         c = gen_core.gen_case(ctx.seed, i, n_states=4, n_calls=3)
         if i % 2 == 1:
             c["layout"] = ctx.seed * 100000 + i
+        if mode == "pre" and i % 3 == 0:
+            # editing the precondition through the public mutators (add_condition / remove_condition) and a
+            # shallow copy of the domain: the edited action must behave as the edited formula
+            c["edit"] = gen_core.edit_literal(rng, _params_of(c["tree"]), c["tree"])
         rc.append(c)
     tf2 = ctx.drive("core", rc, hashseeds=hashseeds, opts={"snaps": True})
     ctx.validate(tf2, {c["id"]: c for c in rc}, driver="core", opts={"snaps": True})
